@@ -49,7 +49,8 @@ Proof.
     destruct (match o with Some b => b =? 45 | None => false end); [|apply det_digits_loop].
     cbn [det]. intros [d|]; [|exact I]. destruct (is_dig d); [|exact I].
     destruct (in_range t (0 - Z.of_N (d - 48))); [apply det_digits_loop|exact I]. }
-  rewrite (det_aruns _ _ _ Hr Hdet). exact (signed_ascii_digits_spec fuel t off v Hs Hf Hf1).
+  rewrite (det_aruns _ _ _ Hr Hdet). destruct (signed_ascii_digits_spec fuel t off v Hs Hf Hf1) as (v' & H1 & H2).
+  exists v'. split; [exact H1|exact (core_after_basic _ _ _ (peeked_core _ _ _ H2))].
 Qed.
 Print Assumptions C13_signed_ascii_digits_exact.
 
@@ -60,7 +61,10 @@ Theorem C13_multi_equals_simple : forall fuel t off v r,
   aruns (ascii_digits_multi fuel t off) v r ->
   exists v', r = ADone (fst (unsigned_spec t (rest_at v off)), off + snd (unsigned_spec t (rest_at v off))) v' /\
              vcur v' = vcur v /\ vS v' = vS v.
-Proof. exact ascii_digits_multi_spec. Qed.
+Proof.
+  intros fuel t off v r Hw Hb Hf Hr. destruct (ascii_digits_multi_spec fuel t off v r Hw Hb Hf Hr) as (v' & H1 & H2).
+  exists v'. split; [exact H1|exact (core_after_basic _ _ _ H2)].
+Qed.
 Print Assumptions C13_multi_equals_simple.
 
 Theorem C13_signed_multi_equals_simple : forall fuel t off v r,
@@ -70,7 +74,11 @@ Theorem C13_signed_multi_equals_simple : forall fuel t off v r,
   aruns (signed_ascii_digits_multi fuel t off) v r ->
   exists v', r = ADone (fst (signed_spec t (rest_at v off)), off + snd (signed_spec t (rest_at v off))) v' /\
              vcur v' = vcur v /\ vS v' = vS v.
-Proof. exact signed_ascii_digits_multi_spec. Qed.
+Proof.
+  intros fuel t off v r Hs Hw Hb Hf Hf1 Hr.
+  destruct (signed_ascii_digits_multi_spec fuel t off v r Hs Hw Hb Hf Hf1 Hr) as (v' & H1 & H2).
+  exists v'. split; [exact H1|exact (core_after_basic _ _ _ H2)].
+Qed.
 Print Assumptions C13_signed_multi_equals_simple.
 
 (* what "representable" means *)
